@@ -274,25 +274,24 @@ static bool cb(void *ctx_, void *it)
             }
             break;
         }
-        case 0x57: { /* SET_RAW_NAME */
+        case 0x57: { /* SET_RAW_NAME (also on a deleted record: must report a void record) */
             size_t         n;
             const uint8_t *a = rd_blob(&r, &n);
             int            rc;
-            if (deleted) break;
             err = NULL;
             rc  = t->set_raw_name(it, &err, a, n);
             log_u8(l, (uint8_t) rc);
             if (rc != 0) log_err(l, t, err);
             break;
         }
-        case 0x58: { /* SET_NAME text, zone */
+        case 0x58: { /* SET_NAME text, zone (an empty zone is NULL or a non-NULL pointer, len 0) */
             size_t         n, zn;
             const uint8_t *a = rd_blob(&r, &n);
             const uint8_t *z = rd_blob(&r, &zn);
+            uint8_t        nonnull = rd_u8(&r);
             int            rc;
-            if (deleted) break;
             err = NULL;
-            rc  = t->set_name(it, &err, (const char *) a, n, zn ? z : NULL, zn);
+            rc  = t->set_name(it, &err, (const char *) a, n, (zn || nonnull) ? z : NULL, zn);
             log_u8(l, (uint8_t) rc);
             if (rc != 0) log_err(l, t, err);
             break;
